@@ -393,6 +393,19 @@ def R6_swap_growth_handoff(run):
         want = "fee_growth_global_a" if ab else "fee_growth_global_b"
         run.check("R6", "seed[a_to_b=%d]" % ab, len(inits) == 1 and is_field(inits[0], want), "running fee growth starts from %s, expected whirlpool.%s" % ([sh(x, 40) for x in inits], want),
                   loc=sw.loc(), detail="starts at whirlpool." + want)
+    # the running growth already contains this step's fee when a tick reached by this step is crossed
+    m = SL.SwapModel(facts, {})
+    var = m.var("fee_growth_input")
+    upd = [(b, t) for (b, _, t) in m.defs(var) if mentions(t, lambda s_: s_[0] == "call" and s_[1].endswith("calculate_fees"))]
+    cross = calls_to(sw, ends("calculate_update"), ctx={}, cut=True)
+    step = calls_to(sw, ends("compute_swap"), ctx={}, cut=True)
+    fees = calls_to(sw, ends("calculate_fees"), ctx={}, cut=True)
+    ok = len(upd) == 1 and len(cross) == 1 and len(step) == 1 and len(fees) == 1
+    if ok:
+        ub, cb, sb, fb = upd[0][0], cross[0][0], step[0][0], fees[0][0]
+        ok = cfg.dominates(sw, sb, fb) and cfg.dominates(sw, fb, ub) and cfg.dominates(sw, ub, cb) and cb in cfg.reach(sw, ub, cut_blocks=[sb])
+    run.check("R6", "growth-booked-before-crossing", ok, "in one loop iteration the order must be compute_swap -> calculate_fees -> running growth := its result -> tick crossing; "
+              "otherwise a tick reached by a step is flipped against a growth that lacks that step's own fee", loc=sw.loc(), detail="step fee is in the running growth before the crossing of the same iteration")
     # next_tick_cross_update receives them unchanged
     cu = facts.need_fn("manager::swap_manager::calculate_update")
     cs = calls_to(cu, ends("next_tick_cross_update"))
